@@ -255,6 +255,73 @@ theorem feeder_msgs_keep_prices (st : St) (op : Op)
 
 /-! ### non-vacuity -/
 
+/-! ### BandChain answers: the rates of a request become prices of the symbols THAT request asked for -/
+
+/-- a successful answer for request `id` writes exactly the band prices of the symbols `id` was acknowledged for, in order … -/
+theorem band_answer_writes (st st' : St) (b : BandSt) (id : Nat) (rates : List Int) (mult : Nat) (time height : Int)
+    (h : bandAnswer st b id rates mult time height = some st') :
+    ∃ syms, b.reqs.lookup id = some syms ∧ syms.length = rates.length ∧
+      st' = (bandPrices syms rates mult time height).foldl setPrice st := by
+  unfold bandAnswer at h
+  split at h
+  · cases h
+  · rename_i syms hs
+    split at h
+    · cases h
+    · rename_i hl
+      exact ⟨syms, hs, by simpa using hl, (Option.some.inj h).symm⟩
+
+/-- … each rate under its own symbol, scaled by the multiplier, from source `band` -/
+theorem band_prices_shape (syms : List Bytes) (rates : List Int) (mult : Nat) (time height : Int) (hl : syms.length = rates.length) :
+    (bandPrices syms rates mult time height).map (·.asset) = syms ∧
+    (bandPrices syms rates mult time height).map (·.price) = rates.map (· * 10 ^ (18 - mult)) ∧
+    ∀ p ∈ bandPrices syms rates mult time height, p.source = BAND := by
+  refine ⟨?_, ?_, ?_⟩
+  · simp only [bandPrices, List.map_map]
+    have : ((fun p : Price => p.asset) ∘ fun sr : Bytes × Int =>
+        ({ asset := sr.1, source := BAND, price := sr.2 * 10 ^ (18 - mult), provider := AUTOMATION, ts := toU64 time, height := toU64 height } : Price)) = Prod.fst := rfl
+    rw [this, ← List.unzip_fst, List.unzip_zip (by omega)]
+  · simp only [bandPrices, List.map_map]
+    have : ((fun p : Price => p.price) ∘ fun sr : Bytes × Int =>
+        ({ asset := sr.1, source := BAND, price := sr.2 * 10 ^ (18 - mult), provider := AUTOMATION, ts := toU64 time, height := toU64 height } : Price)) =
+        (fun r : Int => r * 10 ^ (18 - mult)) ∘ Prod.snd := rfl
+    rw [this, ← List.map_map, ← List.unzip_snd, List.unzip_zip (by omega)]
+  · intro p hp
+    simp only [bandPrices, List.mem_map] at hp
+    obtain ⟨sr, _, rfl⟩ := hp
+    rfl
+
+/-- an acknowledgement registers its own id and leaves every other request as it was: the late answer to request `n` is still
+matched with what `n` asked for after `n + 1` (or any other request) has been acknowledged -/
+theorem band_ack_registry (b : BandSt) (id : Nat) (syms : List Bytes) :
+    (bandAck b id syms).reqs.lookup id = some syms ∧
+    ∀ id', id' ≠ id → (bandAck b id syms).reqs.lookup id' = b.reqs.lookup id' := by
+  refine ⟨by simp [bandAck, List.lookup], fun id' hne => ?_⟩
+  have key : ∀ l : List (Nat × List Bytes), (l.filter (fun e => e.1 != id)).lookup id' = l.lookup id' := by
+    intro l
+    induction l with
+    | nil => rfl
+    | cons e es ih =>
+      obtain ⟨k, v⟩ := e
+      by_cases hk : k = id
+      · subst hk
+        have hc : ((k, v).1 != k) = false := by simp
+        have hq : (id' == k) = false := by simpa using hne
+        rw [List.filter_cons, if_neg (by simp [hc]), ih, List.lookup_cons, hq]
+      · have hc : ((k, v).1 != id) = true := by simpa using hk
+        rw [List.filter_cons, if_pos hc, List.lookup_cons, List.lookup_cons, ih]
+  have h1 : (id' == id) = false := by simpa using hne
+  simp only [bandAck, List.lookup_cons, h1]
+  exact key b.reqs
+
+/-- WITNESS (the shape of seeded change C16-5): request 101 asked for BTC and ETH, request 102 for ATOM and BTC; the late answer to 101
+matched with the LAST acknowledged request stores BTC's rate as the price of ATOM; matched with its own request it prices BTC and ETH. -/
+theorem band_last_request_witness :
+    let b := bandAck (bandAck {} 101 [ascii "BTC", ascii "ETH"]) 102 [ascii "ATOM", ascii "BTC"]
+    ((bandAnswer {} b b.last [30000000000, 2000000000] 6 1000 10).map (fun s => (allPrices s).map (·.asset))) = some [ascii "ATOM", ascii "BTC"] ∧
+    ((bandAnswer {} b 101 [30000000000, 2000000000] 6 1000 10).map (fun s => (allPrices s).map (·.asset))) = some [ascii "BTC", ascii "ETH"] := by
+  decide
+
 /-- a reachable, non-trivial state: gov registers a feeder, the feeder feeds BTC from elys twice and
 from band, ETH from "x" and "s"; an unregistered account and a deactivated feeder try to feed;
 `EndBlock` at t = 1100 expires the first BTC/elys price (expiry 500). -/
